@@ -30,6 +30,8 @@ mod c05;
 mod c20;
 mod e2;
 mod e3;
+mod e4;
+mod hub;
 
 use common::*;
 
@@ -86,6 +88,7 @@ fn main() {
         "C15" => e2::run(&ctx, "C15"),
         "C08" => e3::run_c08(&ctx),
         "C09" => e3::run_c09(&ctx),
+        "C03" | "C10" => hub::run(&ctx, &id),
         _ => machinery_error(format!("unknown property id {id}")),
     }
 }
